@@ -74,7 +74,7 @@ def job_specs(draw, max_tasks: int = 14, min_tasks: int = 0, max_outs: int = 4, 
     chainy = draw(st.booleans())
     tasks: list[dict] = []
     for i in range(n):
-        nouts = draw(st.sampled_from([1, 1, 1, 2, 3, max_outs]))
+        nouts = draw(st.sampled_from([1, 1, 1, 1, 2, 2, 3, max_outs, max_outs, 11, 12] if max_outs >= 4 else [1, 1, 1, 2, 3, max_outs]))
         if nouts == 1:
             outs = [draw(st.sampled_from(["__default__", "0", "out"]))]
         else:
